@@ -255,11 +255,19 @@ type IK struct {
 	N string
 }
 
+// CK is a comparable key struct whose later components are themselves structs / arrays of structs.
+type CK struct {
+	L  string
+	At Flat
+	Ar [2]IK
+}
+
 type KeyMaps struct {
 	F map[FK]int
 	A map[[2]float32]string
 	I map[IK]string
 	B map[[2]uint8]int
+	C map[CK]int
 }
 
 // Unit has nothing to compare, OnlyPad only padding.
